@@ -7,31 +7,31 @@ HERE = os.path.dirname(os.path.abspath(__file__))
 
 CHECKS = {
     "C01": {
-        "technique": "static analysis: MIR dataflow + impl-table rules (kind-set soundness, dispatch agreement, cache integrity, prefilter guard); must-pass-through of the kind index (every node looked up, every kind registered); sibling agreement of range-overlap boundaries; RuleCollection invariants (bucket uniqueness vs first-bucket readers, both storages read); single-skip-edge rule for find_all",
+        "technique": "static analysis: MIR dataflow + impl-table rules (kind-set soundness, dispatch agreement, cache integrity, prefilter guard); must-pass-through of the kind index (every node looked up, every kind registered); sibling agreement of range-overlap boundaries; RuleCollection invariants (bucket uniqueness vs first-bucket readers, both storages read); single-skip-edge rule for find_all; rule-loading completeness (no dropping step between parsed rule files and the loaded list)",
         "text": "Static structural argument over the type-checked program (MIR of every Matcher impl, impl tables, call graph): decides the necessary conditions under which skipping by node kind or by literal substring cannot drop a match — who may restrict kinds, combinator polarity, cache integrity, skip sites test the matcher they run, strictness guard of the literal prefilter. It holds for all inputs because it is a statement about all paths of the code; it does not decide per-node matching itself. Also decided: every traversed node reaches the kind lookup and every potential kind is registered in the combined index; byte-range overlap filters use the half-open boundary.",
         "note": "Trusted: nightly rustc MIR/trait resolution; bit-set/tree-sitter/regex dependencies; reviewed same-node/other-node classification tables re-derived from MIR each run.",
         "design": "DESIGN.md §2 C01",
     },
     "C04": {
-        "technique": "static analysis: environment-effect typestate over MIR (failure atomicity), guarded-insert who-may-write rule; same typestate over the pattern engine's aggregator; shape of the equality predicate (iterator-pipeline walk); lookup-arm rule for 'unbound' in match_multi_var",
+        "technique": "static analysis: environment-effect typestate over MIR (failure atomicity), guarded-insert who-may-write rule; same typestate over the pattern engine's aggregator; shape of the equality predicate (iterator-pipeline walk); lookup-arm rule for 'unbound' in match_multi_var; composite rule keys build the same-named operator; declared sub-rules bind into the caller's environment (shared with C12)",
         "text": "Static typestate over every Matcher::match_node_with_env body: after the caller's environment is exposed to a callee, can the function still return None / discard the candidate? Decides the failure-atomicity mechanism behind 'failed alternatives leave no trace' for all rules and candidate orders; does not decide structural equality of bindings. Also decided: failure atomicity inside the pattern engine (retries run on a scratch aggregator) and the shape of the equality behind a repeated variable (all children of both nodes, kinds and arity compared).",
         "note": "Trusted: MIR construction; explicit model of std Option/Iterator combinators listed in the checker; reviewed table of accepted scratch-and-commit idioms.",
         "design": "DESIGN.md §2 C04",
     },
     "C08": {
-        "technique": "static analysis: trait-impl forwarding rule + generic-instantiation resolution + argument provenance over MIR; interprocedural value provenance (frame agreement of the splice base, file content identity, replacement-text identity per front end); splice purity of the applying writer",
+        "technique": "static analysis: trait-impl forwarding rule + generic-instantiation resolution + argument provenance over MIR; interprocedural value provenance (frame agreement of the splice base, file content identity, replacement-text identity per front end); splice purity of the applying writer; identity flow of the announced replacement offsets (Diff.range) into the JSON record",
         "text": "Static who-resolves-to-what argument: every instantiation chain that reaches the replaced-range computation with a rule's Fixer resolves to Fixer's own method (never the trait default), wrappers forward every overridable method, no front end uses the node-range shortcut with a Fixer, and matcher+fixer passed together come from one rule object. This is the whole mechanism by which front ends can disagree about an edit, so the structural claim is close to the behaviour. Also decided: the text a fix is spliced into is the document text its range refers to, and the scanned text is the file content unmodified.",
         "note": "Trusted: nightly rustc MIR/trait resolution; instantiation chains followed to depth 6; determinism of the shared functions is C13's concern.",
         "design": "DESIGN.md §2 C08",
     },
     "C09": {
-        "technique": "static analysis: funnel (must-call / must-not-call) rules on front-end entry points, dominance check of the LSP stale-version guard; loop/pipeline completeness (no finding dropped before its emit), range provenance of listed findings; scanned-text identity (read_file); RuleCollection invariants (off rules never stored, bucket uniqueness, both storages read)",
+        "technique": "static analysis: funnel (must-call / must-not-call) rules on front-end entry points, dominance check of the LSP stale-version guard; loop/pipeline completeness (no finding dropped before its emit), range provenance of listed findings; scanned-text identity (read_file); RuleCollection invariants (off rules never stored, bucket uniqueness, both storages read); message rendered per match (call inside the loop over matches); character-column rule for printed positions",
         "text": "Static funnel argument: each front end obtains findings only from CombinedScan::scan over rules selected by the rule collection, messages only via RuleConfig::get_message; in the LSP change handler the version test dominates replacement and publication. Interleavings of concurrent handlers are not decided. Also decided: between scan result and listing no loop can skip its emit and no pipeline drops elements; the listed range is the matched node's; the combined index `sg test` is compared against is complete.",
         "note": "Trusted: MIR construction incl. coroutine lowering (CFG re-linked at resume points); tower-lsp scheduling is out of scope.",
         "design": "DESIGN.md §2 C09",
     },
     "C10": {
-        "technique": "static analysis: call-path counting (exactly-once Tree::edit), provenance of every point handed to Tree::edit relative to the splice (buffer reads before/after), single-writer rule; must-pass-through of the re-parse; edit description passed on unmodified; every field of Root rewritten by the edit (no stale cache)",
+        "technique": "static analysis: call-path counting (exactly-once Tree::edit), provenance of every point handed to Tree::edit relative to the splice (buffer reads before/after), single-writer rule; must-pass-through of the re-parse; edit description passed on unmodified; every field of Root rewritten by the edit (no stale cache); who-supplies-the-parser rule (origin of the parser handed to the re-parse is not a cache / shared cell / static); constructor keeps the given text (identity flow)",
         "text": "Static protocol check of the edit description handed to tree-sitter: on every path old tree and text are updated by the same edit exactly once, positions are computed against the right text version (dominance relative to the splice), and nobody else can mutate the text behind the tree. A necessary condition of the behavioural property; tree-sitter itself is trusted. Also decided: every path after perform_edit re-parses; no function on the way to do_edit rewrites a field of the Edit.",
         "note": "Trusted: tree-sitter's incremental parser given a correct InputEdit; MIR construction.",
         "design": "DESIGN.md §2 C10",
@@ -67,7 +67,7 @@ CHECKS = {
         "design": "DESIGN.md §2 C18",
     },
     "C20": {
-        "technique": "static analysis: impl-table uniformity rules over all Language impls (recogniser funnel, expando<->pre-processing pairing, exhaustive language table); unit discipline of substring indices (character counts vs byte lengths); literal-coverage rule of the template scanner loop; sign test before index casts; validation dominates every accepting return of the recogniser",
+        "technique": "static analysis: impl-table uniformity rules over all Language impls (recogniser funnel, expando<->pre-processing pairing, exhaustive language table); unit discipline of substring indices (character counts vs byte lengths); literal-coverage rule of the template scanner loop; sign test before index casts; validation dominates every accepting return of the recogniser; who-may-call rule on the template constructor (sigil argument is the language's meta_var_char); truth-table evaluation of two-flag decisions in the engine's meta-variable dispatch",
         "text": "Static uniformity argument over the impl tables: every language ends in the one meta-variable recogniser, overrides expando_char iff it pre-processes patterns with the shared routine and its own expando, wrappers forward, the language table is exhaustive. The An+B/substring notations are value-level and declined. Of the small notations only the unit discipline of `substring` is decided (character counts end to end); the An+B arithmetic and the sigil-prefix scanners stay value level (three seeded changes there are deliberately not caught).",
         "note": "Trusted: compiler impl tables; tree-sitter grammars accept the expando character as an identifier character.",
         "design": "DESIGN.md §2 C20",
